@@ -181,6 +181,11 @@ pub mod mtgraph;
 pub mod stream;
 pub mod window;
 
+#[cfg(feature = "verif")]
+pub mod verif;
+#[cfg(feature = "verif")]
+pub mod vsync;
+
 /// Float type used. Usually f32, but not guaranteed.
 pub type Float = f32;
 
